@@ -7,6 +7,7 @@
 (*   []string                                 treated exactly as the       *)
 (*                                            []interface{} of the strings *)
 (*   []map[string]interface{}                 ... of the maps              *)
+(*   mxj.Map held as a value                  treated as the plain map     *)
 (* so the bytes are those of the untyped value (MxjXmlEncode is generic in *)
 (* the scalar tag: ScalarText is the token).  TypeUp turns every list of   *)
 (* strings / of maps of a generated Map into the typed slice; the expected *)
@@ -19,7 +20,7 @@ EXTENDS MC_C03
 TI(tag, cs) == [t |-> tag, v |-> cs]
 RECURSIVE TypeUp(_)
 TypeUp(v) ==
-  IF IsMap(v) THEN VM([k \in DOMAIN v.kv |-> TypeUp(v.kv[k])])
+  IF IsMap(v) THEN VM([k \in DOMAIN v.kv |-> IF IsMap(v.kv[k]) THEN [t |-> "mm", kv |-> TypeUp(v.kv[k]).kv] ELSE TypeUp(v.kv[k])])      \* a map held by a map: as mxj.Map
   ELSE IF IsList(v) THEN
      (IF \A i \in 1..Len(v.it) : v.it[i].t = "s" THEN [t |-> "ls", it |-> v.it]
       ELSE IF v.it # <<>> /\ \A i \in 1..Len(v.it) : IsMap(v.it[i]) THEN [t |-> "lm", it |-> [i \in 1..Len(v.it) |-> TypeUp(v.it[i])]]
@@ -27,7 +28,7 @@ TypeUp(v) ==
   ELSE v
 RECURSIVE JsonableT(_)
 JsonableT(v) ==
-  IF IsMap(v) THEN VM([s \in {Join(c) : c \in DOMAIN v.kv} |-> JsonableT(v.kv[CHOOSE c \in DOMAIN v.kv : Join(c) = s])])
+  IF v.t \in {"m", "mm"} THEN [t |-> v.t, kv |-> [s \in {Join(c) : c \in DOMAIN v.kv} |-> JsonableT(v.kv[CHOOSE c \in DOMAIN v.kv : Join(c) = s])]]
   ELSE IF v.t \in {"l", "ls", "lm"} THEN [t |-> v.t, it |-> [i \in 1..Len(v.it) |-> JsonableT(v.it[i])]]
   ELSE [t |-> v.t, v |-> Join(v.v)]
 AnyXmlT(tv, v, go) == IF tv.t \in {"ls", "lm"} THEN EncodeVal(RT, v, EO(go)) ELSE AnyXml(v, RT, ElementTag, EO(go))
@@ -37,6 +38,6 @@ EmitT == (DoEmit /\ TextOK(m) /\ RootKeyOK /\ RootInDomain /\ m # EmptyMap) =>
       cs |-> SetToSeq(UNION {{Case("xml", go, EncodeRoot(m, <<>>, EO(go))), Case("xmlroot", go, EncodeRoot(m, RT, EO(go))),
                                Case("indentroot", go, EncodeRootIndent(m, <<>>, EO(go))), Case("any", go, AnyXml(m, RT, ElementTag, EO(go)))} : go \in BOOLEAN}),
       vs |-> SetToSeq({[key |-> Join(k), go |-> go, x |-> Join(RenderCompact(AnyXmlT(tm.kv[k], m.kv[k], go), EO(go)))] : k \in DOMAIN m.kv, go \in BOOLEAN})]))
-cScalarsT == {VS(<<"y">>), VS(<<"<", "z">>), VF(<<"0">>), VB(<<"f", "a", "l", "s", "e">>), TI("i", <<"0">>), TI("i32", <<"-", "3">>), TI("i64", <<"9", "0", "0", "7", "1", "9", "9", "2", "5", "4", "7", "4", "0", "9", "9", "3">>),
+cScalarsT == {VS(<<"y">>), VS(<<"<", "z">>), VNilC, VF(<<"0">>), VB(<<"f", "a", "l", "s", "e">>), TI("i", <<"0">>), TI("i32", <<"-", "3">>), TI("i64", <<"9", "0", "0", "7", "1", "9", "9", "2", "5", "4", "7", "4", "0", "9", "9", "3">>),
               TI("f32", <<"0", ".", "5">>), TI("jn", <<"1", ".", "5", "0">>), TI("by", <<"<", "b">>), TI("by", <<>>)}
 =============================================================================
